@@ -1,3 +1,5 @@
+import HopModel.Driver.C04
+import HopModel.Driver.C05
 import HopModel.Driver.C14
 import HopModel.Driver.C20
 import HopModel.Driver.C03
@@ -9,6 +11,10 @@ import HopModel.Driver.C12
 
 def main (args : List String) : IO UInt32 := do
   match args with
+  | "C04" :: rest => Driver.C04.main rest; return 0
+  | "C05" :: rest => Driver.C05.main rest; return 0
+  | "C05sess" :: rest => Driver.C05.main rest; return 0
+  | "C05parse" :: rest => Driver.C05.mainParse rest; return 0
   | "C14" :: rest => Driver.C14.main rest; return 0
   | "C20" :: rest => Driver.C20.main rest; return 0
   | "C03" :: rest => Driver.C03.main rest; return 0
